@@ -48,13 +48,13 @@ C={
         'One to three sessions on a fresh ramfs instance run interleaved operation sequences with extreme offsets; every result is compared with a reference tree model; after all fids are clunked the refcount validator (hook) must be clean and a fresh attach must see the model tree. Concurrent rounds with 2-8 sessions check per-file read/write histories with porcupine (register model), the validator, crashes and race reports in ramfs/.',
         'trusted: tree model (DESIGN App. B) incl. its relations; hooks VerifNewServer/VerifValidate'),
  'C19':('exploration','twin-directory differential monitor (ufs session vs direct OS calls) with snapshot, read-content and stat/listing oracles',
-        'Operation sequences through the real ufs behind SFileSys on export A are mirrored step by step by the equivalent direct OS calls on twin B; after every step success/failure, bytes read, the full snapshots of A and B, and stat/listing through freshly walked fids versus Lstat/ReadDir of A are compared.',
+        'Operation sequences through the real ufs behind SFileSys on export A are mirrored step by step by the equivalent direct OS calls on twin B; after every step success/failure, bytes read, the full snapshots of A and B, and stat/listing through freshly walked fids versus Lstat/ReadDir of A are compared; up to three fids opened for reading stay open while later steps grow, truncate, rename or remove their file through other fids and are re-read after every step against a twin descriptor opened at the same moment.',
         'trusted: the mirroring table (create=OpenFile(O_CREATE|flags), DMDIR=Mkdir, wstat=Chmod/Rename/Truncate, remove=Remove); runs as root (no permission denials)'),
  'C20':('exploration','spy-session trace monitor plus server fid-table comparison',
         'Operation sequences on CFileSys over a spy Session in front of the real SFileSys: every operation must issue exactly the corresponding call on the entry own fid with normalised names, completed walks must yield usable entries, and the server fid table (hook) must always equal the fids of live entries and be empty at the end.',
         'trusted: spy accounting of entry->fid; reference path normaliser; hook'),
  'C14':('exploration','controlled-schedule stress with overlap monitor, deadlock (quiescence) detector, fid-lock hook, porcupine linearizability checking and the Go race detector',
-        'Concurrent histories on the real SFileSys are produced by a gate inside the instrumented FS that releases one parked FS call at a time whenever every other goroutine is parked (PRNG choice), plus free-running histories; judged by the FS overlap/release monitors, a goroutine-state deadlock detector, the fid-table hook (no fid left locked), porcupine v1.3.0 against a non-deterministic sequential fid-table model, and race reports in sfilesys.go.',
+        'Concurrent histories on the real SFileSys are produced by a gate inside the instrumented FS that releases one parked FS call at a time whenever every other goroutine is parked (PRNG choice), plus free-running histories; one history in four starts with crossing walks between two bound fids (a->b and b->a while a third thread is inside the file system on a); judged by the FS overlap/release monitors, a goroutine-state deadlock detector, the fid-table hook (no fid left locked), porcupine v1.3.0 against a non-deterministic sequential fid-table model, and race reports in sfilesys.go.',
         'trusted: path-based sequential model (props/c14.go) and its relations; interleavings inside the session own critical sections are left to the Go scheduler + race detector; porcupine timeouts are inconclusive'),
  'C15':('exploration','hostile-name workload under two observers: sentinel-tree snapshot/content monitor in-process, and a syscall-level path monitor (strace -f) on the server running in its own process',
         'Hostile names in every name-carrying field (walk, create, rename, attach tree name) from every depth, root removal/rename (also of an emptied export), special create bits and follow-up operations through every obtained fid are sent to the real ufs; in-process the sentinel tree next to the export must stay byte- and mtime-identical and nothing returned may be sentinel content; over a unix socket the same workload hits the server under strace and every path it passes to a file syscall after the serving marker must lie in the export root.',
